@@ -6,6 +6,7 @@ import itertools
 import random
 
 from .. import apiworld as AW
+from ..sockworld import quiesce
 from .. import console as C
 from .. import harness as H
 from .. import refmodel as RM
@@ -27,7 +28,7 @@ ASSUMPTIONS = ["model = contract in pyairtouch/api.py + vendor PDFs (refmodel.py
                "(recorded under C05 as known findings)",
                "spill+bypass both set, battery bit of a sensorless zone, error text before the "
                "first answer of an error episode: undecided"]
-REQUIRED_OBS = ["frames_compared", "ac_values_seen", "zone_values_seen", "timer_frames",
+REQUIRED_OBS = ["slow_subscriber_sessions", "frames_compared", "ac_values_seen", "zone_values_seen", "timer_frames",
                 "error_episodes", "version_frames", "ia_fan_values"]
 SOAK = True   # also judged by the whole-run monitors of the soak sessions (vf/soak.py)
 BUDGET = {"quick": 100, "thorough": 1500}
@@ -139,6 +140,10 @@ def cases(tier, seed):
     for i in range(n):
         yield {"gen": rnd.choice((4, 5)), "seed": rnd.randrange(1 << 30),
                "n": rnd.randint(1, 30), "combos": None}
+    for i in range(24 if tier == "quick" else 3000):
+        yield {"k": "slow", "gen": rnd.choice((4, 5)), "seed": rnd.randrange(1 << 30),
+               "n": rnd.randint(2, 6), "delay": rnd.choice([0.5, 6.5, 12.0]),
+               "gap": rnd.choice([0.0, 0.3, 2.0])}
 
 
 def make_frame(gen, rnd, w, combo, obs):
@@ -269,7 +274,68 @@ def one_field_frame(gen, rnd, w, obs):
     return con.f_std(0xC0, R.c0(0x23, 10, [R.b5_ac_status_record(st, 10)]))
 
 
+def run_slow(case):
+    """Application subscribers that take several seconds per call while the console keeps
+    reporting: once everything has been handled, the model shows the LATEST report."""
+    gen = case["gen"]
+    rnd = random.Random(case["seed"])
+    viol, obs = [], {}
+
+    async def main(loop, net, log):
+        import asyncio
+        w = AW.ModelWorld(gen, loop, net, log, installation(gen, rnd))
+        if await w.init_and_sync() is not True:
+            viol.append({"mechanism": "init-failed-on-plain-console", "detail": {}})
+            return
+        subs = []
+        for ac in w.at.air_conditioners:
+            for attach in (ac.subscribe, ac.subscribe_ac_state):
+                s = H.Sub(log, f"slow-ac{ac.ac_id}", hashv=rnd.getrandbits(20))
+                s.delay = case["delay"]
+                attach(s)
+                subs.append(s)
+            for z in ac.zones:
+                s = H.Sub(log, f"slow-zone{z.zone_id}", hashv=rnd.getrandbits(20))
+                s.delay = case["delay"]
+                z.subscribe(s)
+                subs.append(s)
+        frames = []
+        for _ in range(case["n"]):
+            c = w.conn()
+            if c is None:
+                break
+            raw = make_frame(gen, rnd, w, None, obs)
+            frames.append(raw)
+            w.console.send(c, raw)
+            await asyncio.sleep(case["gap"])
+        # let every callback finish (each frame can cost several delays in a row)
+        await asyncio.sleep(case["delay"] * (len(subs) + 2) * (case["n"] + 1) + 30.0)
+        await quiesce(loop)
+        w.feed()
+        dd = RM.diff(w.model.expected(), H.snapshot(w.at))
+        obs["slow_subscriber_sessions"] = 1
+        obs["frames_compared"] = len(frames)
+        for path, ev, gv in dd[:3]:
+            viol.append({"mechanism": "getter-differs-from-latest-report-with-slow-subscribers:"
+                         + path.split(".")[-1],
+                         "detail": {"path": path, "expected": ev, "got": gv,
+                                    "frames": frames[-3:], "delay": case["delay"]}})
+        if w.conn() is None or len(net.conns) != 1:
+            viol.append({"mechanism": "connection-lost-while-subscribers-were-busy",
+                         "detail": {"connections": len(net.conns)}})
+        await w.at.shutdown()
+
+    _, log, st = H.run(main)
+    if st != "ok":
+        viol.append({"mechanism": "model-world-hang", "detail": {"status": st}})
+    return {"violations": H.cap(viol), "evals": case["n"], "decided": obs.get("frames_compared", 0),
+            "distinct": obs.get("frames_compared", 0), "obs": obs,
+            "sample": {"gen": gen, "slow": case["delay"]}}
+
+
 def run_case(case):
+    if case.get("k") == "slow":
+        return run_slow(case)
     gen = case["gen"]
     rnd = random.Random(case["seed"])
     viol = []
